@@ -182,7 +182,16 @@ func (e *Engine) VerifyFunc(key string) (res *FnResult) {
 		// safety sweep of an otherwise assumed contract: only the implicit-panic obligations
 		res.Obls = nil
 		for _, o := range c.obls {
-			if strings.HasPrefix(o.Class, "safe:") || o.Class == "inv-entry" || o.Class == "inv-pres" || o.Class == "assert" || (o.Class == "vacuity" && strings.HasSuffix(o.Name, "requires-sat")) {
+			keepPost := false
+			if o.Class == "post" && o.Clause != nil && o.Clause.Label != "" {
+				// `attr proved l1,l2`: these postconditions of the otherwise assumed contract are proved
+				for _, l := range strings.Fields(strings.ReplaceAll(ct.Attrs["proved"], ",", " ")) {
+					if l == o.Clause.Label {
+						keepPost = true
+					}
+				}
+			}
+			if keepPost || strings.HasPrefix(o.Class, "safe:") || o.Class == "inv-entry" || o.Class == "inv-pres" || o.Class == "assert" || (o.Class == "vacuity" && strings.HasSuffix(o.Name, "requires-sat")) {
 				res.Obls = append(res.Obls, o)
 			}
 		}
